@@ -1,10 +1,18 @@
 #!/bin/bash
-# re-runs the quick check of every kept seeded defect against the current checks; prints one line per defect
+# re-runs the quick check of every kept seeded defect against the current checks on scratch worktrees (parallel-safe);
+# usage: tools/regress_seeded.sh [parallel=3] [budget=40] [ids...]   prints one line per defect
 cd "$(dirname "$0")/.."
-for d in seeded/C*-*/; do
-  d=${d%/}
-  prop=$(python3 -c "import json;print(json.load(open('$d/meta.json'))['property'])")
+P=${1:-3}; B=${2:-40}; shift 2 2>/dev/null
+ids="$@"
+[ -z "$ids" ] && ids=$(ls -d seeded/C*-*/ | xargs -n1 basename)
+one() {
+  id=$1; d=$(pwd)/seeded/$id
   extra=""
-  [ "$(basename $d)" = "C01-3" ] && extra="--props C01,C03"
-  python3 tools/mutant.py detect $(pwd)/$d $extra 2>&1 | grep "^{" | cut -c1-220
-done
+  case $id in
+    C01-3) extra="--props C01,C03";; C02-6) extra="--props C02,C13";; C01-7) extra="--props C01,C10,C12";;
+    C15-10) extra="--props C15,C10";; C04-9|C04-10) extra="--props C04";;
+  esac
+  python3 tools/mutant.py detect-scratch $d $extra --budget $B 2>&1 | grep "^{" | cut -c1-200
+}
+export -f one; export B
+echo $ids | tr ' ' '\n' | xargs -P $P -I{} bash -c 'one {}'
